@@ -849,6 +849,23 @@ pub fn analyze(tr: &Trace) -> Report {
             EvKind::DrainStart => m.drain_started = true,
             EvKind::PullAllEnd { sub, call } => m.on_pull_all_end(sub, *call),
             EvKind::Skipped { .. } => {}
+            EvKind::Snapshot { .. } => {}
+            EvKind::StreamSendRaw { call, subscription, max_out, max_bytes, acks, mod_ids, mod_secs } => {
+                let valid = subscription.is_empty()
+                    && *max_out == 0
+                    && *max_bytes == 0
+                    && mod_ids.len() == mod_secs.len()
+                    && acks.iter().all(|a| valid_ack_id(a))
+                    && mod_ids.iter().all(|a| valid_ack_id(a))
+                    && mod_secs.iter().all(|n| *n >= 0);
+                if valid {
+                    let mods: Vec<(String, i32)> = mod_ids.iter().cloned().zip(mod_secs.iter().cloned()).collect();
+                    m.on_stream_send(*call, acks, &mods);
+                } else {
+                    // must be rejected as a whole: nothing applied, the stream ends with INVALID_ARGUMENT
+                    m.on_stream_send(*call, &["\u{0}invalid".to_string()], &[]);
+                }
+            }
         }
     }
     m.final_checks();
